@@ -206,6 +206,10 @@ class CompoundQuery(qcore.Query):
 
         if len(subs) == 1:
             m = subs[0].matcher(searcher, context)
+            # The shortcut bypasses _matcher(), which normally applies the
+            # boost
+            if self.boost != 1.0:
+                m = matching.WrappingMatcher(m, self.boost)
         else:
             m = self._matcher(subs, searcher, context)
         return m
